@@ -12,7 +12,7 @@ CHECKS = {
          "DESIGN.md §C13"),
  "C14": ("svcmon", "exploration",
          "runtime monitor: start/stop cycles in a worker process and on the real CLI with requests confirmed in flight by the gauge and held by hook delays; completion/rebind/exit-status/deadlock oracles",
-         "(A) server.Run/RequestStop/AwaitStop cycles on the same two addresses in a child worker (a panic or deadlock ends only the worker and is reported with its stack): stop immediately (start delayed by hooks), after ports answer, with 1-4 requests confirmed in flight at chosen handler stages, after completion, a long hold of 8 s (35 s thorough) past the stop, rapid restarts; a server-side ordering oracle from the hook event log (no handler event after the last job finished shutting down); (B) `gnark-mbu start` + SIGINT with the same in-flight timings. Every in-flight client must get its specified response, addresses must bind immediately, exit status 0. Held on the cycles run.",
+         "(A) server.Run/RequestStop/AwaitStop cycles on the same two addresses in a child worker (a panic or deadlock ends only the worker and is reported with its stack): stop immediately (start delayed by hooks), after ports answer, with 1-4 requests confirmed in flight at chosen handler stages, after completion, a long hold of 8 s (35 s thorough) past the stop, rapid restarts; a server-side ordering oracle from the hook event log (no handler event after the last job finished shutting down); (B) `gnark-mbu start` + SIGINT with the same in-flight timings, incl. SIGINT repeated while the drain is in progress. Every in-flight client must get its specified response, addresses must bind immediately, exit status 0. Held on the cycles run.",
          "SIGINT before the handler is installed is out of scope; watchdog >= 120 s turns into a violation only for AwaitStop/exit.",
          "DESIGN.md §C14"),
  "C09": ("svcmon", "exploration",
@@ -22,27 +22,27 @@ CHECKS = {
          "DESIGN.md §C09"),
  "C20": ("svcmon", "exploration",
          "runtime monitor: recorded request/scrape history checked with porcupine against a per-(method,code) counter model + conservation after quiescence",
-         "Client-boundary history of sequential and concurrent (8/16 clients) mixed requests with a scraper running throughout; porcupine checks the history (request = increment inside its interval, scrape = read) partitioned by (method, code); after quiescence the scraped totals must equal the client tally and the gauge be 0; gauge bounded by overlapping operations on every scrape; scrapes must complete while proofs are in flight; one request stays in flight for 33 s (130 s thorough). Held on the histories recorded.",
+         "Client-boundary history of sequential and concurrent (8/16 clients) mixed requests with a scraper running throughout; porcupine checks the history (request = increment inside its interval, scrape = read) partitioned by (method, code); after quiescence the scraped totals must equal the client tally and the gauge be 0; gauge bounded by overlapping operations on every scrape; scrapes must complete while proofs are in flight; one request stays in flight for 33 s (130 s thorough); 250 (4000) bursts of 8-32 cheap concurrent requests each followed by a quiescent scrape whose gauge must read 0. Held on the histories recorded.",
          "Assumes promhttp increments before the handler chain returns and small responses are flushed afterwards (checked implicitly: otherwise porcupine would reject the unchanged tree).",
          "DESIGN.md §C20"),
  "C12": ("climon", "exploration",
          "runtime monitor: digests of the constraint system from every construction path, repeated/concurrent/fresh-process runs compared with each other",
-         "For each dimension the SHA-256 of the constraint system from BuildR1CS*, Setup*, Import*Setup, 8 concurrent compilations, fresh r1cs processes under several GOMAXPROCS and the cs section of setup/import-setup keys files must all be equal (no pinned constant); interleaved multi-/single-block and same-batch/other-depth compile sequences; compile-only path comparison at depth*batch >= 256; public wires [1, InputHash]; Solidity uint256[1]; depth-32 deletion refused on every path incl. import; thorough runs the monitor under -race. Held on the runs made.",
+         "For each dimension the SHA-256 of the constraint system from BuildR1CS*, Setup*, Import*Setup, 8 concurrent compilations, fresh r1cs processes under several GOMAXPROCS and the cs section of setup/import-setup keys files must all be equal (no pinned constant); interleaved multi-/single-block and same-batch/other-depth compile sequences; compile-only path comparison at depth*batch >= 256; public wires [1, InputHash]; Solidity uint256[1]; deletion depth 32 refused on every path incl. import and depths 33..65536 (incl. 63, 64, 65, 127, 128, 255, 256) refused at build time; thorough runs the monitor under -race. Held on the runs made.",
          "Schedules are those the OS produced; digest of WriteTo identifies the system.",
          "DESIGN.md §C12"),
  "C17": ("climon", "exploration",
          "runtime monitor: extraction output (in-process repeated, fresh processes) compared byte-wise and per definition with the committed Lean model",
-         "ExtractLean(30,4) three times in one process and extract-circuit in fresh processes under GOMAXPROCS 1/4/16 must equal formal-verification/FormalVerification.lean (54 definitions compared individually); all SemaphoreMTB names used by the proof files must be defined; a sweep revisiting dimensions must be deterministic; CLI extraction also writes over an existing longer file. The Lean proofs are not rebuilt (toolchain absent).",
+         "ExtractLean(30,4) three times in one process and extract-circuit in fresh processes under several GOMAXPROCS and environments (MTB_MODE and other exported variables, locale, HOME/TMPDIR) must equal formal-verification/FormalVerification.lean (54 definitions compared individually); all SemaphoreMTB names used by the proof files must be defined; a sweep revisiting dimensions must be deterministic; CLI extraction also writes over an existing longer file. The Lean proofs are not rebuilt (toolchain absent).",
          "Model text equality, not proof re-checking.",
          "DESIGN.md §C17"),
  "C19": ("climon", "exploration",
          "runtime monitor: real binary in fresh processes; stdout/exit-status oracle from in-monitor Groth16 verification",
-         "setup -> gen-test-params | prove -> verify on real keys files; prove on independently written documents (short roots, four number styles) with stdout required to be exactly one proof; verify on CLI proofs, re-randomised valid derivatives (short coordinates first, hashes with odd hex length), tampered/reordered proofs, wrong hashes, other-mode keys, garbage; unprovable parameters; six mode spellings on six commands; missing/empty/truncated/directory keys; gen-test-params over dimensions up to the full tree; setup re-run over a path that already holds the other mode's keys. Held on the invocations made.",
+         "setup -> gen-test-params | prove -> verify on real keys files; prove on independently written documents (short roots, four number styles) with stdout required to be exactly one proof; verify on CLI proofs, re-randomised valid derivatives (short coordinates first, hashes with odd hex length), tampered/reordered proofs, wrong hashes, other-mode keys, garbage; unprovable parameters; six mode spellings (incl. absent) on six commands; missing/empty/truncated/directory keys; gen-test-params over dimensions up to the full tree; setup re-run over a path that already holds the other mode's keys. Held on the invocations made.",
          "Verify oracle = gnark Verify with the vk from export-vk.",
          "DESIGN.md §C19"),
  "C03": ("circmon", "exploration",
          "runtime monitor: full compiled circuits solved with chosen public inputs and forged bit-decomposition hints vs. independent on-chain packing + Keccak",
-         "Full insertion/deletion circuits (one- and two-block hash inputs) are solved for valid batches with the keccak of the canonical packing (must accept) and with hashes of single-field perturbations, other valid batches, alternative encodings, and - with the decomposition hint replaced - of the forged bytes v+k*r for every admissible k (incl. v=0), other values and non-boolean digits (must all reject); the rejecting constraint is recorded. Public wires checked to be exactly [1, InputHash]. Held on the executions produced.",
+         "Full insertion/deletion circuits (one- and two-block hash inputs) are solved for valid batches with the keccak of the canonical packing (must accept) and with hashes of single-field perturbations, other valid batches, alternative encodings, and - with the decomposition hint replaced - of the forged bytes v+k*r for every admissible k (incl. v=0), other values and non-boolean digits (must all reject); an insertion circuit of depth 33 must reject start indices >= 2^32 for every public input; the rejecting constraint is recorded. Public wires checked to be exactly [1, InputHash]. Held on the executions produced.",
          "Trusts x/crypto Keccak, the packing written from the property statement, gnark's solver, the structure audit.",
          "DESIGN.md §3.1, §C03"),
  "C07": ("provmon", "exploration",
@@ -62,12 +62,12 @@ CHECKS = {
          "DESIGN.md §C10"),
  "C11": ("provmon", "exploration",
          "runtime monitor: write/read both formats + CLI conversion, canonical digests and cross prove/verify against the original in-memory system",
-         "Real insertion/deletion systems and hundreds of small independent systems are written compressed and raw, converted by the CLI (to a fresh path and in place), written repeatedly over one shared path, read back by both readers; header, digests of pk/vk/cs, byte counts and cross prove/verify between original and reloaded system are checked. Held on the systems produced.",
+         "Real insertion/deletion systems and hundreds of small independent systems are written compressed and raw, converted by the CLI (to a fresh path and in place), written repeatedly over one shared path, read back by both readers (the file reader also through symlinks, hard links and named pipes); header, digests of pk/vk/cs, byte counts and cross prove/verify between original and reloaded system are checked. Held on the systems produced.",
          "Digest = SHA-256 of gnark's own canonical serialisation of the in-memory parts.",
          "DESIGN.md §C11"),
  "C15": ("provmon", "fault_enumeration",
          "fault enumeration at run time: every cut offset of small files, boundaries and samples of real files, CLI on truncated files",
-         "Every strict prefix (all byte offsets) of several small proving-system files in both formats, and boundary/PRNG offsets of real 60-90 MB files, are fed to UnsafeReadFrom / ReadSystemFromFile under recover() and a watchdog: outcome must be an error. The complete file is loaded through the file reader first, then its prefixes. CLI commands on six truncated files must exit non-zero within their watchdog and start must not stay up. Exhaustive per small file; sampled for real files.",
+         "Every strict prefix (all byte offsets) of several small proving-system files in both formats, and boundary/PRNG offsets of real 60-90 MB files, are fed to UnsafeReadFrom / ReadSystemFromFile under recover() and a watchdog: outcome must be an error. The complete file is loaded through the file reader first, then its prefixes. CLI commands on six truncated files must exit non-zero within their watchdog without crash marks in their output, and start must not stay up. Exhaustive per small file; sampled for real files.",
          "Assumes truncation = strict prefix; small files share the layout of real ones.",
          "DESIGN.md §C15"),
  "C01": ("circmon", "exploration",
@@ -87,7 +87,7 @@ CHECKS = {
          "DESIGN.md §C04"),
  "C05": ("circmon", "exploration",
          "runtime monitor: gadget solved as compiled R1CS (and in the test engine) vs. iden3 Poseidon and published vectors",
-         "Poseidon1/Poseidon2 harnesses solved on specials (0,1,2,r-1,r-2,2^k,2^k-1 for all k), all small pairs, sparse/dense and uniform elements, with the reference digest (accept) and reference+1 (reject); harnesses calling the gadgets repeatedly on shared bare inputs and on derived, re-used expressions (compiled and in the engine) expose aliasing and in-place updates. Held on the inputs produced.",
+         "Poseidon1/Poseidon2 harnesses solved on specials (0,1,2,r-1,r-2,2^k,2^k-1 for all k), all small pairs, sparse/dense and uniform elements, with the reference digest (accept) and reference+1 (reject); harnesses calling the gadgets repeatedly on shared bare inputs and on derived, re-used expressions (compiled and in the engine) expose aliasing and in-place updates; compile-time constants as gadget inputs; circuits defined concurrently. Held on the inputs produced.",
          "Trusts iden3 go-iden3-crypto Poseidon, anchored to two published circomlib vectors at run time.",
          "DESIGN.md §C05"),
  "C06": ("circmon", "exploration",
@@ -97,7 +97,7 @@ CHECKS = {
          "DESIGN.md §C06"),
  "C16": ("provmon", "exploration",
          "runtime monitor: differential round trip against an independent JSON reader/writer",
-         "PRNG parameter sets of every magnitude/shape are encoded by the repository, read back by an independent reader and by the repository's decoder; documents from an independent writer in decimal/0x/0X/padded hex must decode to the same values; one numeric position replaced by a non-number (incl. a sign after the 0x prefix), or an index by an out-of-range value, must make decoding fail; a sequential stream checks that a document with an absent key does not silently take values (in particular not those of an earlier decode). Held on the documents produced.",
+         "PRNG parameter sets of every magnitude/shape are encoded by the repository, read back by an independent reader and by the repository's decoder; documents from an independent writer in decimal/0x/0X/padded hex must decode to the same values; one numeric position replaced by a non-number (incl. a sign after the 0x prefix), or an index by an out-of-range value, must make decoding fail with an error (a panic of the codec is a violation); a sequential stream checks that a document with an absent key does not silently take values (in particular not those of an earlier decode). Held on the documents produced.",
          "Trusts encoding/json and big.Int.SetString in the independent codec; spellings the property does not mention are not asserted.",
          "DESIGN.md §C16"),
  "C18": ("provmon", "exploration",
